@@ -250,6 +250,13 @@ def build_harness(race=False):
                         os.remove(old)
         env = dict(GOENV)
         cmd = [GO, "test", "-c", "-tags", "verif", "-o", out]
+        if os.path.abspath(REPO) != "/repo":
+            # scratch copy of the repository (used when testing the checks
+            # against seeded changes): same go.mod with the replace redirected
+            alt = os.path.join(BUILD, "harness-alt.mod")
+            with open(alt, "w") as f:
+                f.write(open(os.path.join(ROOT, "harness", "go.mod")).read().replace("=> /repo", "=> " + os.path.abspath(REPO)))
+            cmd += ["-modfile", alt]
         if race:
             env["CGO_ENABLED"] = "1"
             cmd.append("-race")
